@@ -57,6 +57,8 @@ class Z:
             raise Skip(k)
         if isinstance(e, ast.UnaryOp) and isinstance(e.op, ast.USub):
             return "(- %s)" % self.expr(e.operand)
+        if isinstance(e, ast.BinOp) and isinstance(e.op, ast.LShift) and isinstance(e.left, ast.Constant) and e.left.value == 1:
+            return "(2 ^ %s)" % self.expr(e.right)  # 1 << k
         if isinstance(e, ast.BinOp):
             a, b = self.expr(e.left), self.expr(e.right)
             op = {ast.Add: "+", ast.Sub: "-", ast.Mult: "*", ast.FloorDiv: "/", ast.Mod: "mod"}.get(type(e.op))
@@ -65,6 +67,13 @@ class Z:
             return "(%s %s %s)" % (a, op, b)
         if isinstance(e, ast.Call):
             f = e.func
+            p2 = self.pow2ceil(e)
+            if p2 is not None:
+                return p2
+            if isinstance(f, ast.Name) and f.id == "int" and len(e.args) == 1 and not e.keywords:
+                return self.expr(e.args[0])  # int() of an integer expression (anything else raises Skip below)
+            if isinstance(f, ast.Attribute) and f.attr == "bit_length" and not e.args and not e.keywords:
+                return "(g_bit_length %s)" % self.expr(f.value)
             if isinstance(f, ast.Name) and f.id in ("max", "min") and len(e.args) == 2 and not e.keywords:
                 return "(Z.%s %s %s)" % (f.id, self.expr(e.args[0]), self.expr(e.args[1]))
             if isinstance(f, ast.Name) and f.id == "len" and len(e.args) == 1 and isinstance(e.args[0], ast.Name):
@@ -73,6 +82,27 @@ class Z:
                 return self.name("len_" + f.value.id)
             raise Skip("call")
         raise Skip(type(e).__name__)
+
+    def pow2ceil(self, e):
+        """int(2 ** np.ceil(np.log2(X))) / int(2 ** math.ceil(math.log(X, 2))) for an integer expression X
+        -> 2 ^ Z.log2_up X (exact while log2 of a float is: X below 2^48)."""
+        if not (isinstance(e.func, ast.Name) and e.func.id == "int" and len(e.args) == 1 and not e.keywords):
+            return None
+        p = e.args[0]
+        if not (isinstance(p, ast.BinOp) and isinstance(p.op, ast.Pow) and isinstance(p.left, ast.Constant) and p.left.value == 2):
+            return None
+        c = p.right
+        if not (isinstance(c, ast.Call) and ast.unparse(c.func) in ("np.ceil", "math.ceil") and len(c.args) == 1 and not c.keywords):
+            return None
+        lg = c.args[0]
+        if not isinstance(lg, ast.Call) or lg.keywords:
+            return None
+        fn = ast.unparse(lg.func)
+        if fn in ("np.log2", "math.log2") and len(lg.args) == 1:
+            return "(2 ^ Z.log2_up %s)" % self.expr(lg.args[0])
+        if fn == "math.log" and len(lg.args) == 2 and isinstance(lg.args[1], ast.Constant) and lg.args[1].value == 2:
+            return "(2 ^ Z.log2_up %s)" % self.expr(lg.args[0])
+        return None
 
     def test(self, t):
         if isinstance(t, ast.Compare) and len(t.ops) == 1:
@@ -153,6 +183,9 @@ def emit_function(prefix, fn, out):
                         out.extend(lines)
 
 
+BITLEN = "Definition g_bit_length (n : Z) : Z := if n =? 0 then 0 else Z.log2 n + 1.  (* int.bit_length for n >= 0 *)"
+
+
 def find(tree, cls, name):
     for node in tree.body:
         if cls is None and isinstance(node, ast.FunctionDef) and node.name == name:
@@ -169,6 +202,8 @@ def translate(compute_src, torch_src):
         "(* GENERATED by /verif/gen/stft.py from compute.py and torch.py - do not edit *)",
         "From Coq Require Import ZArith Bool.",
         "Open Scope Z_scope.",
+        "",
+        BITLEN,
         "",
     ]
     ct = ast.parse(compute_src)
